@@ -94,6 +94,8 @@ func (sc *Scenario) Shape() string {
 				s += "S"
 			case "purge":
 				s += "P"
+			case "plainread":
+				s += "r"
 			}
 		}
 	}
@@ -188,6 +190,8 @@ func Run(sc *Scenario, opt Options, agg *vlib.HitAgg) *Result {
 					w.RRs[op.RR].Stop()
 				case "purge":
 					w.RRs[op.RR].Purge()
+				case "plainread":
+					w.Cells[op.Cell].ReadPlain()
 				case "sleep":
 					time.Sleep(time.Duration(op.US) * time.Microsecond)
 				case "progress":
@@ -235,6 +239,7 @@ func Run(sc *Scenario, opt Options, agg *vlib.HitAgg) *Result {
 		}
 	}
 	w.Log("all-stopped", "")
+	w.late.Wait() // every computation is dead now, so the late goroutines finish within their LateUS
 
 	res := &Result{}
 	if opt.CheckCleanup {
